@@ -428,6 +428,9 @@ func (p *parser) value() (any, error) {
 	case 'l':
 		return p.seq()
 	case 't':
+		if t == "t0" { // the empty tuple as a nil slice (var t Tuple; Call{..., nil}.Args): the same Python value as Tuple{}
+			return og.Tuple(nil), nil
+		}
 		xs, err := p.seq()
 		return og.Tuple(xs), err
 	case 'm':
